@@ -470,10 +470,11 @@ class Session:
         self.loop.run_idle()
         return self._collect({"e": "cancel"})
 
-    def peerclose(self):
+    def peerclose(self, reset=False):
+        """The peer closes the connection (reset=True: the connection is lost with an error, e.g. ECONNRESET)."""
         trs = [t for t in self.net.conns if not t._closing]
         tr = trs[-1]
-        tr.peer_close()
+        tr.peer_close(ConnectionResetError(104, "Connection reset by peer") if reset else None)
         self.loop.run_idle()
         return self._collect({"e": "peerclose", "c": tr.cid + 1})
 
@@ -489,7 +490,7 @@ class Session:
         vloop.VClock.offset += max(target - now, 1.0)
         return self._collect({"e": "jumplife"})
 
-    def settle(self, *, hs=None, data=None, connect="ok", deliver=True, limit=60, until=None, last=None):
+    def settle(self, *, hs=None, data=None, connect="ok", deliver=True, limit=60, until=None, last=None, hold=False):
         """Run the active call to its end with a plain environment: connects resolve as `connect`, every in-flight message is
         delivered in order (unless deliver=False: the network drops it), otherwise the pending library timer fires.
         hs / data = class of the device's reaction to every handshake / data transmission made meanwhile (None: valid)."""
@@ -503,9 +504,9 @@ class Session:
             self.next_reply_hs, self.next_reply_data = hs, data
             if self.net.pending_connect is not None:
                 evs = self.conn(connect)
-            elif self.parked and deliver:
+            elif self.parked and deliver and not hold:
                 evs = self.deliver(0)
-            elif self.parked:
+            elif self.parked and not hold:
                 evs = self.drop(0)
             elif self.loop.pending_timers():
                 evs = self.timer()
